@@ -20,7 +20,7 @@ RULE = ('E1 (exhaustive): every ordered pair and triple of the 12 binary operato
         'between tokens, letter case, $ markers, number formats, sign runs kept or broken by parentheses). Per spelling: '
         '(O1) get_expr equals my canonical rendering (not asserted for spellings with a sign run), (O2) the compiled '
         'function equals vf.xlref.evaltree on 4-6 operand assignments (non-commuting numbers; text, logical, blank, error), '
-        '(O3) all spellings agree on inputs and values, (O4) the exported text re-parses to the same expr (unless it contains '
+        '(O3) all spellings agree on inputs and values; ExcelModel.to_dict() shows "=" + that expr, (O4) the exported text re-parses to the same expr (unless it contains '
         'a sign run) and the same values. Non-trivial = at least two operators, or a function with an empty / array / union '
         'argument; distinct by canonical expr.')
 ASSUMPTIONS = [
@@ -216,7 +216,7 @@ def tree_labels(tree):
     return lb
 
 
-def check_tree(tree, spellings, env_rows, export_envs=99):
+def check_tree(tree, spellings, env_rows, export_envs=99, with_model=False):
     """spellings: list of T.Spelled.  -> R"""
     fails, labels = [], set(tree_labels(tree))
     nt = any(l.startswith('nt:') for l in labels)
@@ -312,6 +312,19 @@ def check_tree(tree, spellings, env_rows, export_envs=99):
                     seen_values[i] = (sp.text, feats, g)
             if not T.has_sign_run(feats):  # a folded sign run exports the folded tree; its values were compared above
                 exports.setdefault(got_expr, sp)
+    # ---- the third observation point: ExcelModel.to_dict() shows the same fully parenthesised text
+    if with_model and exports:
+        ex_text, sp = next(iter(exports.items()))
+        key = "'[b.xlsx]S'!Z9"
+        try:
+            shown = sut.ExcelModel().from_dict({key: sp.text}).to_dict().get(key)
+        except sut.Watchdog:
+            raise
+        except Exception as ex:
+            shown = 'raised:%s' % type(ex).__name__
+        labels.add('to_dict')
+        if shown != '=' + ex_text:
+            fail('to_dict', sp.feats, 'formula-text', '%r is exported by to_dict() as %r, get_expr is %r' % (sp.text, shown, ex_text))
     # ---- O4 the exported text is one more spelling of the same tree
     if not pctpct:
         for ex_text, sp in exports.items():
@@ -418,7 +431,7 @@ def check_random_tree(case):
             texts.add(sp.text)
             sps.append(sp)
     rows = NUM_ROWS[:3] + KIND_ROWS[:2] + [list(r) for r in case.get('env', [])]
-    r = check_tree(tree, sps, rows, export_envs=3)
+    r = check_tree(tree, sps, rows, export_envs=3, with_model=True)
     r['labels'] = sorted(set(r['labels']) | {'tree'})
     return r
 
